@@ -804,9 +804,7 @@ class SocketWorld:
         self.hub = hub
         ns = {"_SOCKET_HUB": hub, "_COMM_LOGGERS": {}}
         self.Socket = type("SchedThreadSocket", (ThreadSocket,), dict(ns))
-        sns = dict(ns)
-        sns["_storage"] = property(lambda o: o.__dict__["_storage"],
-                                   lambda o, v: o.__dict__.__setitem__("_storage", _wrap_value(v)))
+        sns = dict(ns)      # (deliveries through recv_callback count as shared accesses by their name, see gtrace)
         self.StorageSocket = type("SchedStorageThreadSocket", (StorageThreadSocket,), sns)
         self.Broadcast = type("SchedBroadcastChannel", (ThreadBroadcastChannel,), {"_socket_class": self.Socket})
         self.keep: List[Any] = []
